@@ -11,8 +11,10 @@ ARCHES_OK = ["x86_64", "ppc64le", "i386", "aarch64", "noarch", "armhfp", "arm64"
 ARCHES_BAD = ["src", "nosrc", "bogus", ""]
 NEVRA_BIN = ["bash-0:5.1-2.el9.x86_64", "bash-debuginfo-0:5.1-2.el9.x86_64.rpm", "Packages/b/bash-doc-0:5.1-2.el9.noarch.rpm",
              "gtk+3-2-1:3.24.1~rc1-2.el9_1.x86_64", "python3-3-7:3.9-1.i386", "bash-10:5.1-2.el9.x86_64",
-             "glibc-0:2.34-1.el9.armhfp", "glibc-0:2.34-1.el9.armhfp.rpm", "perl-4:5.32-1.ppc.rpm", "zip-0:3.0-1.amd64"]
-NEVRA_SRC = ["bash-0:5.1-2.el9.src", "bash-0:5.1-2.el9.src.rpm", "gtk+3-2-1:3.24.1~rc1-2.el9_1.nosrc", "SRPMS/python3-3-7:3.9-1.src.rpm"]
+             "glibc-0:2.34-1.el9.armhfp", "glibc-0:2.34-1.el9.armhfp.rpm", "perl-4:5.32-1.ppc.rpm", "zip-0:3.0-1.amd64",
+             "bash-01:4.2-1.fc20.s390x", "glibc-00:2.18-11.fc20.x86_64.rpm"]
+NEVRA_SRC = ["bash-0:5.1-2.el9.src", "bash-0:5.1-2.el9.src.rpm", "gtk+3-2-1:3.24.1~rc1-2.el9_1.nosrc", "SRPMS/python3-3-7:3.9-1.src.rpm",
+             "glibc-00:2.18-11.fc20.src", "bash-007:4.2-1.fc20.nosrc.rpm"]
 NEVRA_BAD = ["bash-5.1-2.el9.x86_64", "foo:bar", "", ":", "a-1:b", "x-0:1-2"]
 PATHS = ["Server/x86_64/os/Packages/b/bash-5.1-2.el9.x86_64.rpm", "Packages/x.rpm", "p"]
 PATHS_BAD = ["/abs/path.rpm", "/"]
